@@ -560,8 +560,12 @@ def run(prog, rep, tier):
         why = "no rng.uniform over %s" % name
         if len(us) == 1:
             c = us[0]
-            slots, extra = api.bind_slots(api.GEN_SLOTS["uniform"], c.args, c.kwargs)
             pn = ("param", name)
+            cargs = list(c.args)
+            if cargs and cargs[0] in (("star", pn), ("*", pn)):
+                # rng.uniform(*bounds, ...) under the `len(bounds) == 2` guard is rng.uniform(bounds[0], bounds[1], ...)
+                cargs = [("sub", pn, ("const", 0)), ("sub", pn, ("const", 1))] + cargs[1:]
+            slots, extra = api.bind_slots(api.GEN_SLOTS["uniform"], cargs, c.kwargs)
             gen_ok = c.recv[0] == "ext" and c.recv[1] == "numpy.random.default_rng" and c.recv[2] == (("param", "random_state"),)
             ok = slots.get("low") == ("sub", pn, ("const", 0)) and slots.get("high") == ("sub", pn, ("const", 1)) and \
                 slots.get("size") == pterm and gen_ok and not extra
